@@ -25,6 +25,7 @@ TECHNIQUE = (
     "reporters-db in minimal forms and of all courts-db court strings, plus deviation-bounded slot products per citation "
     "form with generator ground truth for spans, groups and metadata"
 )
+TECHNIQUE += "; " + "the parallel citation's own components and a later mention of a party are part of the full-case product"
 RULE = (
     "strings: every reporter/journal/law string x {full, short} x 3 contexts (non-plain shapes: reporters-db examples); forms: "
     "for each of 6 forms all slot assignments with <= d deviations from the default (quick: d = 3 for the full-case form, 4 for the others; thorough: d = 5 / complete products; reporter slot "
